@@ -164,6 +164,13 @@ Theorem C05_source_while_iteration_is_model : forall (rg : RG) (rp : RP) w sp n 
 Proof. exact gen_while_exec_iteration_is_model. Qed.
 Print Assumptions C05_source_while_iteration_is_model.
 
+(** the same polling loop drives while (constant sleep) — read from the source *)
+Theorem C05_source_poll_is_model : forall iter (interval : nat -> option Q) max fuel d s,
+  (forall n, interval n = d) ->
+  gen_sleep_looper iter false (fun _ => None) d max fuel s = poll fuel iter interval max 0 s.
+Proof. exact gen_sleep_looper_const_is_model. Qed.
+Print Assumptions C05_source_poll_is_model.
+
 (** * Non-vacuity: while(max 3, stop when cnt>=4) over foreach [a;b], sleeping 1/2 *)
 Definition lib5 : library :=
   [("main", [("steps", Some [
